@@ -36,7 +36,7 @@ def seeds(rng, tier):
     out = []
     names = packlib.safe_names()
     short = [n for n in names if len(n) <= 16]
-    k = 4 if tier == "quick" else 14
+    k = 8 if tier == "quick" else 48
     for j in range(k):
         n = [0, 1, 2, 3, 5, 8][j % 6]
         pool = list(short)
@@ -58,7 +58,7 @@ def total_cases(rng, tier, repo=None):
     add(bytes(8), "pack-wrong-magic")                                        # F7
     add(struct.pack(">IHHIIII", MAGIC, 1, 0, 0, 0x18, 0x20, 0xFFFFFFFF) + b"a\0" + bytes(10), "pack-fields")   # F8
     # (a) random bytes, length 0-256; half of them behind a valid magic so that the parser gets going
-    nrand = 400 if tier == "quick" else 6000
+    nrand = 2000 if tier == "quick" else 60000
     for i in range(nrand):
         n = rng.randrange(0, 257)
         b = bytes(rng.randrange(256) for _ in range(n))
@@ -110,7 +110,7 @@ def total_cases(rng, tier, repo=None):
             off = 8 + 16 * (count - 1) + 4
             add(img[:off] + struct.pack(">I", na0) + img[off + 4:], "pack-duplicate")
         # (f) byte flips
-        nflip = 40 if tier == "quick" else 400
+        nflip = 60 if tier == "quick" else 600
         for _ in range(nflip):
             if size == 0:
                 break
